@@ -18,6 +18,7 @@ THEOREMS = [
     "CrCube.C01.missing_never_contributes",
     "CrCube.C01.numeric_reports_payload",
     "CrCube.C01.flat_payload_reshape",
+    "CrCube.C01.counts_from_flat_payload",
     "CrCube.C01.strand_counts_faithful",
     "CrCube.C01.strand_extent",
     "CrCube.C01.ca_counts_faithful",
